@@ -252,8 +252,7 @@ def check_C20(tier):
     beh = os.path.join(BUILD, "traces", "C20_beh.ndjson")
     seen = set()
     with open(beh, "w") as f:
-        for c in r2["replay"]:
-            s = json.dumps(c)
+        for s in sorted(json.dumps(c, sort_keys=True) for c in r2["replay"]):
             if s not in seen:
                 seen.add(s)
                 f.write(s + "\n")
@@ -345,9 +344,9 @@ def check_C19(tier):
     sysbeh = os.path.join(BUILD, "traces", "C19_system.ndjson")
     step = 7 if tier == "quick" else 3
     with open(sysbeh, "w") as f:
-        for k, c in enumerate(rs["replay"]):
+        for k, c in enumerate(sorted(json.dumps(c, sort_keys=True) for c in rs["replay"])):
             if k % step == 0:
-                f.write(json.dumps(c) + "\n")
+                f.write(c + "\n")
     res.extra["system_behaviours_replayed"] = len(rs["replay"][::step])
     bins = build_bins()
     n = 40 if tier == "quick" else 600
